@@ -393,6 +393,87 @@ def aliased_structs(_=None) -> Dict[str, Any]:
     return {"problems": problems, "stats": {"aliased_struct_cases": n}}
 
 
+def placed_definitions(_=None) -> Dict[str, Any]:
+    """(g) a definition that needs padding (inside, at the end; struct, message) sits in every file of small import graphs, the other
+    files hold aligned definitions: with auto padding off the closure is refused wherever the definition sits, with it on every file's
+    definitions are padded; and the same Parser object gives the same verdicts after parses that failed (its options are its own)"""
+    import contextlib
+    import io
+    from pyrtma.parser import Parser
+
+    graphs = {"two-imports": {"root.yaml": ["dev/a.yaml", "b.yaml"], "dev/a.yaml": [], "b.yaml": []},
+              "chain": {"root.yaml": ["a.yaml"], "a.yaml": ["dev/c.yaml"], "dev/c.yaml": []},
+              "diamond": {"root.yaml": ["a.yaml", "b.yaml"], "a.yaml": ["dev/c.yaml"], "b.yaml": ["dev/c.yaml"], "dev/c.yaml": []}}
+    bad_defs = {"inside-struct": ("struct_defs", "SENSOR", {"fields": {"flag": "char", "count": "int32"}}, 8, 1),
+                "end-message": ("message_defs", "READING", {"id": 4160, "fields": {"v": "double", "n": "int16"}}, 16, 1),
+                "inside-and-end": ("message_defs", "MIXED", {"id": 4161, "fields": {"a": "int8", "b": "int64", "c": "int8"}}, 24, 2)}
+    problems = []
+    n = 0
+    d = core.scratch_dir("c11p")
+    try:
+        for gname, g in graphs.items():
+            files_in = list(g)
+            for bname, (sec, dname, body, size, pads) in bad_defs.items():
+                for where in files_in + [None]:
+                    files = {}
+                    for k, f in enumerate(files_in):
+                        secs: Dict[str, Any] = {"struct_defs": {f"OK{k}": {"fields": {"a": "int32", "b": "int32"}}}}
+                        if g[f]:
+                            secs["imports"] = [os.path.relpath(x, os.path.dirname(f) or ".") for x in g[f]]
+                        if f == where:
+                            secs.setdefault(sec, {})[dname] = body
+                        files[f] = secs
+                    root = defx.Program(files).write(d)
+                    for auto_pad in (False, True):
+                        n += 1
+                        try:
+                            pm = defx.parse_model(root, import_coredefs=False, auto_pad=auto_pad)
+                            if where is None:
+                                got = ("accepted",)
+                            else:
+                                md = (pm.struct_defs if sec == "struct_defs" else pm.message_defs)[dname]
+                                got = ("accepted", md.size, sum(1 for fl in md.fields if fl.name.startswith("padding_")))
+                        except Exception as e:
+                            got = (type(e).__name__,)
+                        want = ("accepted",) if where is None else (("accepted", size, pads) if auto_pad else ("AlignmentError",))
+                        if got != want:
+                            problems.append({"kind": "placed-definition-verdict", "graph": gname, "definition": bname, "file": where, "auto_pad": auto_pad,
+                                             "got": list(got), "want": list(want)})
+        # one Parser object with auto padding off: a failed parse (of whatever kind), then definitions that need padding
+        broken = {"unknown-type": {"root.yaml": {"message_defs": {"BRK": {"id": 4170, "fields": {"a": "no_such_type"}}}}},
+                  "duplicate-id": {"root.yaml": {"message_defs": {"B1": {"id": 4171, "fields": None}, "B2": {"id": 4171, "fields": None}}}},
+                  "misaligned": {"root.yaml": {"message_defs": {"B3": {"id": 4172, "fields": {"a": "int8", "b": "double"}}}}}}
+        for first in broken:
+            for bname, (sec, dname, body, size, pads) in bad_defs.items():
+                for opts in ({"auto_pad": False}, {"auto_pad": False, "validate_alignment": True}, {"validate_alignment": False}):
+                    n += 1
+                    with contextlib.redirect_stdout(io.StringIO()), contextlib.redirect_stderr(io.StringIO()):
+                        prs = Parser(import_coredefs=False, **opts)
+                        verdicts = []
+                        for files in (broken[first], {"root.yaml": {sec: {dname: body}}}):
+                            sub = os.path.join(d, f"r{n}_{len(verdicts)}")
+                            os.makedirs(sub)
+                            root = defx.Program(files).write(sub)
+                            try:
+                                prs.parse(root)
+                                md = (prs.struct_defs if sec == "struct_defs" else prs.message_defs).get(dname)
+                                verdicts.append(("accepted", md.size if md is not None else None))
+                            except Exception as e:
+                                verdicts.append((type(e).__name__,))
+                        for h in list(prs.logger.handlers):
+                            prs.logger.removeHandler(h)
+                    if opts.get("validate_alignment") is False:
+                        want2 = ("accepted", sum({"char": 1, "int32": 4, "double": 8, "int16": 2, "int8": 1, "int64": 8}[t] for t in body["fields"].values()))
+                    else:
+                        want2 = ("AlignmentError",)
+                    if verdicts[1] != want2:
+                        problems.append({"kind": "reused-parser-forgets-its-options", "first_parse": first, "definition": bname, "options": opts,
+                                         "verdicts": [list(v) for v in verdicts], "want_after_the_failed_parse": list(want2)})
+    finally:
+        core.rmtree(d)
+    return {"problems": problems, "stats": {"placed_cases": n}}
+
+
 def metadata_variants(_=None) -> Dict[str, Any]:
     """(f) what a definition file says about itself (metadata of a combined / generated file, in the root or in an imported file)
     has no bearing on layout rules: the same definitions get the same verdict and the same padding"""
@@ -556,6 +637,7 @@ def run(tier: str) -> int:
     res.append(size_boundaries())
     res.append(cli_options())
     res.append(aliased_structs())
+    res.append(placed_definitions())
     res.append(renamed_layouts())
     res.append(metadata_variants())
     res.append(user_fields_named_like_padding())
@@ -570,7 +652,7 @@ def run(tier: str) -> int:
     chk.sample({"sequence": list(seqs[0]), "fields": fields_of(seqs[0]), "reference": reference_layout(seqs[0])})
     chk.sample({"sequence": list(seqs[-1]), "fields": fields_of(seqs[-1]), "reference": reference_layout(seqs[-1])})
     chk.assumptions += ["gcc (x86-64 SysV) layout is the ground truth for C", "ctypes layout for Python", "import_coredefs off (layout code is independent of the core definitions)"]
-    return chk.finish({"evaluations": totals.get("cases", 0) * 2 + totals.get("size_cases", 0) + totals.get("renamed_cases", 0) + totals.get("metadata_cases", 0) + totals.get("user_padding_cases", 0) + totals.get("aliased_struct_cases", 0) + totals.get("cli_cases", 0), "distinct_nontrivial": totals.get("padded", 0)})
+    return chk.finish({"evaluations": totals.get("cases", 0) * 2 + totals.get("size_cases", 0) + totals.get("renamed_cases", 0) + totals.get("metadata_cases", 0) + totals.get("user_padding_cases", 0) + totals.get("aliased_struct_cases", 0) + totals.get("placed_cases", 0) + totals.get("cli_cases", 0), "distinct_nontrivial": totals.get("padded", 0)})
 
 
 def replay(case) -> int:
